@@ -234,7 +234,7 @@ func (b *BasicService) StopAsync() {
 		return
 	}
 
-	terminated, _ := b.switchState(New, Terminated, func() {
+	terminated, oldState := b.switchState(New, Terminated, func() {
 		// Service wasn't started yet, and it won't be now.
 		// Notify waiters and listeners.
 		close(b.runningWaitersCh)
@@ -242,9 +242,11 @@ func (b *BasicService) StopAsync() {
 		b.notifyListeners(func(l Listener) { l.Terminated(New) }, true)
 	})
 
-	if !terminated {
+	if !terminated && (oldState == Starting || oldState == Running) {
 		// Service is Starting or Running. Just cancel the context (it must exist,
-		// as it is created when switching from New to Starting state)
+		// as it is created when switching from New to Starting state).
+		// In any other state there is nothing to do: a concurrent StopAsync may have
+		// terminated a service that was never started, in which case there is no context.
 		b.serviceCancel()
 	}
 }
